@@ -48,6 +48,7 @@ func c12BuildPath(p vfshared.Path, value string, companion bool) proto.Message {
 	}, nil)
 	if companion {
 		c12AddCompanion(msg.ProtoReflect())
+		vfshared.DuplicateListBlobs(msg.ProtoReflect()) // lists of blobs carry two matching blobs
 	}
 	return msg
 }
